@@ -25,7 +25,7 @@ class Game(AsyncMode):
 
     __slots__ = ["_balls_in_play", "player_list", "slam_tilted", "tilted", "ending", "num_players",
                  "_stopping_modes", "_stopping_queue", "_end_ball_event", "_at_least_one_player_event",
-                 "balls_per_game", "max_players"]
+                 "balls_per_game", "max_players", "_players_adding", "_no_player_adding_event"]
 
     def __init__(self, *args, **kwargs):
         """Initialize game."""
@@ -42,6 +42,8 @@ class Game(AsyncMode):
         self._stopping_queue = None
         self._end_ball_event = None  # type: asyncio.Event
         self._at_least_one_player_event = None  # type: asyncio.Event
+        self._players_adding = 0
+        self._no_player_adding_event = None     # type: asyncio.Event
         self.balls_per_game = None
         self.max_players = None
 
@@ -65,6 +67,9 @@ class Game(AsyncMode):
         self._end_ball_event.clear()
         self._at_least_one_player_event = asyncio.Event()
         self._at_least_one_player_event.clear()
+        self._players_adding = 0
+        self._no_player_adding_event = asyncio.Event()
+        self._no_player_adding_event.set()
         self.balls_per_game = self.machine.config['game']['balls_per_game'].evaluate([])
 
         # Add add player switch handler
@@ -95,6 +100,9 @@ class Game(AsyncMode):
                 await self._award_extra_ball()
 
             await self._end_player_turn()
+
+            # a player who is still held in the player_adding queue event must not get the next turn half-added
+            await self._no_player_adding_event.wait()
 
             if self.slam_tilted or self.player.ball >= self.balls_per_game and self.player.number == self.num_players:
                 self.ending = True
@@ -129,9 +137,9 @@ class Game(AsyncMode):
 
         # Sometimes game_starting handlers will add players, so we only
         # have to add one here if there aren't any players yet.
-        if self.player_list:
-            self._at_least_one_player_event.set()
-        else:
+        # (A player in the list may still be held in its player_adding queue event. The event is set once a player
+        # has been added completely.)
+        if not self.player_list:
             self._at_least_one_player_event.clear()
             self.request_player_add()
 
@@ -591,6 +599,8 @@ class Game(AsyncMode):
 
         self.player_list.append(player)
         self.num_players = len(self.player_list)
+        self._players_adding += 1
+        self._no_player_adding_event.clear()
 
         self.machine.events.post_queue('player_adding',
                                        player=player,
@@ -635,6 +645,9 @@ class Game(AsyncMode):
 
         # At least one player has been added to the current game, set event
         self._at_least_one_player_event.set()
+        self._players_adding -= 1
+        if not self._players_adding:
+            self._no_player_adding_event.set()
 
         self.info_log("Player added successfully. Total players: %s", self.num_players)
 
